@@ -51,8 +51,9 @@ fn scenario(r: &mut Rng, k: u64, frames: usize) -> Scenario {
         // a BASIC program header the ROM accepts, its body, and a second pair it goes on to
         let mut h = vec![0u8];
         h.extend(b"verif     ");
-        h.extend([60, 0, 0, 0x80, 60, 0]);
-        vec![good_block(0x00, &h), good_block(0xFF, &r.bytes(60)), good_block(0x00, &r.bytes(17)), good_block(0xFF, &r.bytes(40))]
+        // (bodies longer than the player's 128-byte streaming window: the asset is read again in mid-block)
+        h.extend([0x2C, 0x01, 0, 0x80, 0x2C, 0x01]);
+        vec![good_block(0x00, &h), good_block(0xFF, &r.bytes(300)), good_block(0x00, &r.bytes(17)), good_block(0xFF, &r.bytes(200))]
     } else {
         vec![good_block(0x00, &r.bytes(17)), good_block(0xFF, &r.bytes(60))]
     };
@@ -147,6 +148,25 @@ fn drive(s: &Scenario, driving: &str, r: &mut Rng) -> (Vec<(usize, u64)>, u64, u
                 assert!(info.stop_reason == EmulationStopReason::Timeout);
                 1
             }
+            "bpn" => {
+                // several frames per call with breakpoint stops in between
+                let n = 1 + r.below(room as u64) as usize;
+                emu.set_debug_interface(VDebug::Every { k: 1 + r.below(20_000), n: 0 });
+                emu.set_speed(EmulationMode::FrameCount(n));
+                let mut calls = 0u64;
+                loop {
+                    let info = emu.emulate_frames(Duration::from_secs(100000)).unwrap();
+                    if info.stop_reason == EmulationStopReason::Completed {
+                        break;
+                    }
+                    calls += 1;
+                    if calls > 400_000 * n as u64 {
+                        stuck = true;
+                        break;
+                    }
+                }
+                n
+            }
             "bp" | "bp1" => {
                 // a breakpoint every few instructions (bp1: on every instruction, so that a stop coincides with every
                 // other per-instruction event); resume until the frame is reported complete
@@ -202,7 +222,7 @@ pub fn run(args: &Args) {
     let base = args.num("base", 0);
     for k in base..base + scenarios {
         let s = scenario(&mut r, k, frames);
-        for driving in ["one", "one", "n", "n", "max1", "bp", "bp", "bp1", "soundoff", "nodrain", "chunk1", "chunk7", "file", "gzip"] {
+        for driving in ["one", "one", "n", "n", "max1", "bp", "bp", "bp1", "bpn", "bpn", "soundoff", "nodrain", "chunk1", "chunk7", "file", "gzip"] {
             if std::env::var("VH_DEBUG").is_ok() { eprintln!("scenario {k} driving {driving}"); }
             let (d, audio, audio_n, stuck) = drive(&s, driving, &mut r);
             let digests: Vec<Value> = d.iter().map(|(f, h)| json!([f, split(*h)])).collect();
